@@ -3,6 +3,7 @@ package c15
 // Registry maps harness names to their native entry points (replay).
 var Registry = map[string]func([]int64){
 	"HarnessTwoSubmitters":   func(a []int64) { HarnessTwoSubmitters(int(a[0]), int(a[1])) },
+	"HarnessForkBelowTip":    func(a []int64) { HarnessForkBelowTip(int(a[0]), int(a[1])) },
 	"HarnessTwoBranches":     func(a []int64) { HarnessTwoBranches(int(a[0]), int(a[1])) },
 	"HarnessReaderDuringAdd": func(a []int64) { HarnessReaderDuringAdd(int(a[0])) },
 }
